@@ -18,6 +18,7 @@
 #include <AIToolbox/POMDP/Algorithms/rPOMCP.hpp>
 #include <tuple>
 #include <map>
+#include <functional>
 
 using namespace verif;
 
@@ -35,6 +36,7 @@ struct Core {
     mutable std::vector<Call> log;
     mutable bool recording = false;
     mutable long clamped = 0, fromTerminal = 0;
+    std::vector<double> beliefW;                     // weights of the support states of the next belief handed to a planner
 
     size_t base(size_t s) const { return s % nb; }
     size_t time(size_t s) const { return s / nb; }
@@ -143,6 +145,55 @@ static void dumpR(const AIToolbox::POMDP::BeliefNode<E> & n, Path & p, Line & l,
         for (auto & kv : n.children[a].children) { p.emplace_back(a, kv.first); dumpR<E>(kv.second, p, l, count); p.pop_back(); }
 }
 
+// The head node's sampling vector, its total and its engine pointer are private: an explicit template instantiation may
+// name private members, which hands the member pointers to `get(Tag)`.
+template <typename Tag, typename Tag::type M> struct Rob { friend typename Tag::type get(Tag) { return M; } };
+#define VERIF_ROB(TAG, CLASS, MEMBER, TYPE) \
+    struct TAG { using type = TYPE CLASS::*; friend type get(TAG); }; template struct Rob<TAG, &CLASS::MEMBER>;
+using HeadF = AIToolbox::POMDP::HeadBeliefNode<false>;
+using HeadT = AIToolbox::POMDP::HeadBeliefNode<true>;
+VERIF_ROB(SbF, HeadF, sampleBelief_, AIToolbox::POMDP::SampleBelief)
+VERIF_ROB(SbT, HeadT, sampleBelief_, AIToolbox::POMDP::SampleBelief)
+VERIF_ROB(BsF, HeadF, beliefSize_, size_t)
+VERIF_ROB(BsT, HeadT, beliefSize_, size_t)
+VERIF_ROB(RdF, HeadF, rand_, AIToolbox::RandomEngine *)
+VERIF_ROB(RdT, HeadT, rand_, AIToolbox::RandomEngine *)
+template <bool E> struct HeadTags;
+template <> struct HeadTags<false> { using Sb = SbF; using Bs = BsF; using Rd = RdF; };
+template <> struct HeadTags<true>  { using Sb = SbT; using Bs = BsT; using Rd = RdT; };
+
+// rPOMCP only: what the episode needs to see of the head node
+struct RHooks {
+    std::function<std::vector<std::pair<size_t, size_t>>(size_t, size_t)> childTb;   // particle map of the root's (a, o) child
+    std::function<void(Line &)> head;   // sampleBelief_, beliefSize_, getMostCommonParticle(), draws of sampleBelief() with the predicted pick
+    size_t beliefParam = 0;
+};
+
+// head node: the private vector as it is, the private total, the most common particle, and `n` draws of sampleBelief().
+// The draw `pick` is predicted on a copy of the engine (same distribution object type, same state => same number).
+template <bool E>
+static void dumpHead(const AIToolbox::POMDP::HeadBeliefNode<E> & g, Line & l, unsigned n) {
+    using T = HeadTags<E>;
+    const auto & sb = g.*get(typename T::Sb{});
+    const size_t bsz = g.*get(typename T::Bs{});
+    AIToolbox::RandomEngine * eng = g.*get(typename T::Rd{});
+    l << (size_t)sb.size(); for (auto & x : sb) l << x.first << (size_t)x.second;
+    l << bsz << g.getMostCommonParticle();
+    bool sync = true;
+    l << (size_t)n;
+    for (unsigned i = 0; i < n; ++i) {
+        AIToolbox::RandomEngine cp = *eng;
+        std::uniform_int_distribution<unsigned> gen(1, bsz);
+        int pick = gen(cp);
+        size_t res = g.sampleBelief();
+        sync = sync && (cp == *eng);
+        l << (size_t)pick << res;
+    }
+    l << sync;
+    size_t zero = 0; for (auto & x : sb) zero += x.second == 0;
+    std::printf("#stat rhead_entries %zu\n#stat rhead_zero_count_entries %zu\n", sb.size(), zero);
+}
+
 static void putLog(Line & l, const std::vector<Call> & log) {
     l << (size_t)log.size();
     for (auto & c : log) l << c.s << c.a << c.s1 << c.o << c.r << c.term1;
@@ -164,6 +215,8 @@ static void genCore(Core & c, Rng & rng, int kind, bool witness, unsigned maxSte
     if (ugly) c.gamma = ug[rng.below(3)];
     double unit = ugly ? (rng.coin() ? 0.1 : 1.0 / 3.0) : 0.25;
     if (ugly) std::printf("#stat ugly 1\n");
+    // large magnitudes (still dyadic): rewards in multiples of 2^18
+    if (!witness && !ugly && rng.coin(1, 10)) { unit = 262144.0; std::printf("#stat large_rewards 1\n"); }
     int rmode = witness ? 2 : (int)rng.below(4);       // 0 mixed, 1 all negative, 2 all positive, 3 mostly zero
     double lo = rmode == 2 ? 0.25 : -4.0, hi = rmode == 1 ? -0.25 : 4.0;
     c.numA.assign(c.nb, c.Amax); c.term.assign(c.nb, 0);
@@ -200,11 +253,11 @@ static void putCore(Line & l, const Core & c, int kind) {
     }
 }
 
-struct CallPlan { unsigned horizon, iters; };
+struct CallPlan { unsigned horizon, iters; double expl = 1.0; size_t bs = 1; };
 
 template <class PlannerT, class FreshF, class AdvF, class DumpF, class HasF>
 static void episode(Core & c, int kind, Rng & rng, const std::vector<CallPlan> & plan, double expl, size_t extraParam,
-                    PlannerT & pl, FreshF fresh, AdvF adv, DumpF dump, HasF hasChild, bool pomdp) {
+                    PlannerT & pl, FreshF fresh, AdvF adv, DumpF dump, HasF hasChild, bool pomdp, RHooks * rh = nullptr, bool firstAdv = false) {
     Line run; run << "C19" << (kind == 3 ? "rrun" : "run"); putCore(run, c, kind); run << expl << extraParam << c.entropy;
     std::vector<std::string> extra;
     size_t sTrue = 0;          // true environment state: base 0 at time 0 is never terminal
@@ -212,17 +265,35 @@ static void episode(Core & c, int kind, Rng & rng, const std::vector<CallPlan> &
     bool mixed = false;        // root particles spread over several layers (after a uniform restart)
     size_t budget = 0, lastA = 0;
     for (size_t ci = 0; ci < plan.size(); ++ci) {
-        auto [h, it] = plan[ci];
+        unsigned h = plan[ci].horizon, it = plan[ci].iters;
         pl.setIterations(it);
+        // the rarely used setters, between calls: exploration constant (any sign) and, for the particle planners, the belief size
+        pl.setExploration(plan[ci].expl);
+        if constexpr (requires { pl.setBeliefSize(size_t{}); }) pl.setBeliefSize(plan[ci].bs);
+        if (rh) rh->beliefParam = plan[ci].bs;
+        if (ci > 0 && plan[ci].expl != plan[ci - 1].expl) std::printf("#stat exploration_changed_between_calls 1\n");
+        if (ci > 0 && pomdp && plan[ci].bs != plan[ci - 1].bs) std::printf("#stat belief_size_changed_between_calls 1\n");
         size_t ret;
-        if (ci == 0) {
+        if (ci == 0 && !firstAdv) {
             std::vector<size_t> support{sTrue};
             if (pomdp && rng.coin(1, 2)) for (size_t b = 1; b < c.nb; ++b) if (!c.term[b] && rng.coin(1, 2)) support.push_back(b);
+            // the belief need not contain state 0, and need not be uniform (weights in sixteenths, exact in doubles):
+            // `sampleProbability` walks the vector from index 0 and falls back to the last index
+            if (pomdp && support.size() > 1 && rng.coin(1, 3)) { support.erase(support.begin()); std::printf("#stat belief_without_state0 1\n"); }
+            c.beliefW.assign(support.size(), 1.0 / (double)support.size());
+            if (pomdp && support.size() > 1 && rng.coin(1, 2)) {
+                std::vector<unsigned> w(support.size(), 1); for (unsigned k = (unsigned)support.size(); k < 16; ++k) ++w[rng.below(w.size())];
+                for (size_t i = 0; i < w.size(); ++i) c.beliefW[i] = w[i] / 16.0;
+                std::printf("#stat belief_nonuniform 1\n");
+            }
+            if (pomdp) std::printf("#stat belief_support_size%zu 1\n", support.size());
             run << "fresh"; run.nats(support);
+            Line rhl; if (rh) { rhl << "C19" << "rhead" << 0 << c.S() << rh->beliefParam; rhl << (size_t)support.size(); for (auto x : support) rhl << x << (size_t)1; }
             c.log.clear(); c.clamped = 0; c.fromTerminal = 0;
             c.recording = true; ret = fresh(support, h); c.recording = false;
             sTrue = support[rng.below(support.size())];
             budget = h;
+            if (rh) { rh->head(rhl); extra.push_back(rhl.os.str()); }
         } else {
             // environment step with the action taken (usually the planner's choice), unlogged
             size_t aTaken = lastA;
@@ -236,14 +307,21 @@ static void episode(Core & c, int kind, Rng & rng, const std::vector<CallPlan> &
             bool hit = hasChild(aTaken, key);
             std::printf("#stat advance_%s 1\n", hit ? "hit" : "miss");
             run << "adv" << aTaken << key;
+            Line rhl;
+            if (rh) {
+                rhl << "C19" << "rhead" << (hit ? 1 : 2) << c.S() << rh->beliefParam;
+                std::vector<std::pair<size_t, size_t>> ctb; if (hit) ctb = rh->childTb(aTaken, key);
+                rhl << (size_t)ctb.size(); for (auto & x : ctb) rhl << x.first << x.second;
+            }
             c.log.clear(); c.clamped = 0; c.fromTerminal = 0;
             c.recording = true; ret = adv(aTaken, key, h); c.recording = false;
-            rootT += 1;
+            if (rh) { rh->head(rhl); extra.push_back(rhl.os.str()); }
+            if (ci > 0) rootT += 1; else { rootT = c.time(sTrue); std::printf("#stat advance_before_first_call 1\n"); }
             if (hit) budget = std::max(budget > 0 ? budget - 1 : 0, (size_t)h); else budget = h;
             if (!hit && pomdp) mixed = true;
         }
         lastA = ret;
-        run << h << it << ret;
+        run << h << it << ret << plan[ci].expl << plan[ci].bs;
         putLog(run, c.log);
         size_t count = 0; Line d; Path p; dump(d, p, count);
         run << count << d.os.str();
@@ -302,11 +380,15 @@ static std::vector<CallPlan> genPlan(Rng & rng, const std::string & tier, bool w
 
 static AIToolbox::POMDP::Belief mkBelief(const Core & c, const std::vector<size_t> & support) {
     AIToolbox::POMDP::Belief b(c.S()); b.setZero();
-    for (auto s : support) b[s] = 1.0 / (double)support.size();
+    for (size_t i = 0; i < support.size(); ++i)
+        b[support[i]] = c.beliefW.size() == support.size() ? c.beliefW[i] : 1.0 / (double)support.size();
     return b;
 }
 
-static const long kWitness = 4;
+// cases 4, 5, 6: `sampleAction(a, key, horizon)` as the very first call on MCTS / POMCP / rPOMCP (fixes/C19-3: the first two
+// index an empty vector in the source as first read; a crash of case 4 / 5 is classified by SPEC['classify_crash'])
+// case 7: rPOMCP on a self-loop model, fresh call then one advance (fixes/C19-4: the value leaves the achievable range)
+static const long kWitness = 8;
 
 long verif::verif_ncases(const std::string & tier) { return kWitness + (tier == "thorough" ? 9000 : 2000); }
 
@@ -324,15 +406,32 @@ void verif::verif_case(Rng & rng, long idx, const std::string & tier) {
         l.emit();
     }
     bool witness = idx < kWitness;
-    int kind = witness ? (int)(idx % 4) : (int)rng.below(6);     // 4 = MCTS on a hashed non-integral state type, 5 = rPOMCP with the entropy measure
+    static const int wkind[] = {0, 1, 2, 3, 0, 2, 3, 3};
+    int kind = witness ? wkind[idx] : (int)rng.below(6);
+    // the advancing overload first: witnesses 4..6; at random only for rPOMCP (whose constructor builds the head's action nodes)
+    bool firstAdv = witness ? (idx >= 4 && idx <= 6) : ((kind == 3 || kind == 5) && rng.coin(1, 12));     // 4 = MCTS on a hashed non-integral state type, 5 = rPOMCP with the entropy measure
     unsigned maxSteps = 0;
     auto plan = genPlan(rng, tier, witness, maxSteps);
     Core c; genCore(c, rng, kind == 4 ? 1 : (kind == 5 ? 3 : kind), witness, maxSteps);
     c.entropy = kind == 5;
+    if (idx == 7) {   // one action, one observation, every state loops on itself: the knowledge measure is 1 at every step
+        c.nb = 2; c.Amax = 1; c.O = 1; c.layered = false; c.tcap = 1; c.gamma = 0.5; c.rmin = c.rmax = 1.0;
+        c.numA.assign(2, 1); c.term.assign(2, 0); c.out.assign(2, {});
+        for (size_t b = 0; b < 2; ++b) c.out[b].assign(1, std::vector<Outcome>{Outcome{b, 0, 1.0, 1}});
+        plan.clear(); plan.push_back({2, 10}); plan.push_back({2, 1});
+    }
     c.rng = Rng(rng.next());
     AIToolbox::Seeder::setRootSeed((unsigned)rng.next());   // the planners seed their own engine from the global Seeder: make the case replayable
-    static const double es[] = {1.0, 0.5, 4.0, 100.0, 0.0};
-    double expl = witness ? 1.0 : es[rng.below(5)];
+    static const double es[] = {1.0, 0.5, 4.0, 100.0, 0.0, -1.0};
+    double expl = witness ? 1.0 : es[rng.below(6)];
+    {   // per-call settings: mostly constant over the episode, sometimes changed through the setters
+        size_t bs0 = 1 + rng.below(6);
+        for (size_t i = 0; i < plan.size(); ++i) {
+            plan[i].expl = (i > 0 && !witness && rng.coin(1, 4)) ? es[rng.below(6)] : (i > 0 ? plan[i - 1].expl : expl);
+            plan[i].bs = (i > 0 && !witness && rng.coin(1, 4)) ? 1 + rng.below(6) : (i > 0 ? plan[i - 1].bs : bs0);
+        }
+        if (plan[0].expl < 0) std::printf("#stat exploration_negative 1\n");
+    }
     std::printf("#stat kind%d 1\n#stat layered%d 1\n", kind, (int)c.layered);
     if (kind == 0) {
         GMFixed m; m.c = &c; AIToolbox::MDP::MCTS<GMFixed> pl(m, 1, expl);
@@ -340,21 +439,21 @@ void verif::verif_case(Rng & rng, long idx, const std::string & tier) {
             [&](const std::vector<size_t> & s, unsigned h) { return pl.sampleAction(s[0], h); },
             [&](size_t a, size_t k, unsigned h) { return pl.sampleAction(a, k, h); },
             [&](Line & l, Path & p, size_t & n) { dumpMcts(pl.getGraph(), p, l, n); },
-            [&](size_t a, size_t k) { auto & g = pl.getGraph(); return a < g.children.size() && g.children[a].children.count(k) > 0; }, false);
+            [&](size_t a, size_t k) { auto & g = pl.getGraph(); return a < g.children.size() && g.children[a].children.count(k) > 0; }, false, nullptr, firstAdv);
     } else if (kind == 1) {
         GMVar m{&c}; AIToolbox::MDP::MCTS<GMVar> pl(m, 1, expl);
         episode(c, kind, rng, plan, expl, 0, pl,
             [&](const std::vector<size_t> & s, unsigned h) { return pl.sampleAction(s[0], h); },
             [&](size_t a, size_t k, unsigned h) { return pl.sampleAction(a, k, h); },
             [&](Line & l, Path & p, size_t & n) { dumpMcts(pl.getGraph(), p, l, n); },
-            [&](size_t a, size_t k) { auto & g = pl.getGraph(); return a < g.children.size() && g.children[a].children.count(k) > 0; }, false);
+            [&](size_t a, size_t k) { auto & g = pl.getGraph(); return a < g.children.size() && g.children[a].children.count(k) > 0; }, false, nullptr, firstAdv);
     } else if (kind == 4) {
         GMHashed m{&c}; AIToolbox::MDP::MCTS<GMHashed, HSHash> pl(m, 1, expl);
         episode(c, 1, rng, plan, expl, 0, pl,
             [&](const std::vector<size_t> & s, unsigned h) { return pl.sampleAction(HS{s[0]}, h); },
             [&](size_t a, size_t k, unsigned h) { return pl.sampleAction(a, HS{k}, h); },
             [&](Line & l, Path & p, size_t & n) { dumpMcts(pl.getGraph(), p, l, n); },
-            [&](size_t a, size_t k) { auto & g = pl.getGraph(); return a < g.children.size() && g.children[a].children.count(k) > 0; }, false);
+            [&](size_t a, size_t k) { auto & g = pl.getGraph(); return a < g.children.size() && g.children[a].children.count(k) > 0; }, false, nullptr, firstAdv);
     } else if (kind == 2) {
         size_t bs = 1 + rng.below(6);
         GMFixed m; m.c = &c; AIToolbox::POMDP::POMCP<GMFixed> pl(m, bs, 1, expl);
@@ -362,23 +461,33 @@ void verif::verif_case(Rng & rng, long idx, const std::string & tier) {
             [&](const std::vector<size_t> & s, unsigned h) { return pl.sampleAction(mkBelief(c, s), h); },
             [&](size_t a, size_t k, unsigned h) { return pl.sampleAction(a, k, h); },
             [&](Line & l, Path & p, size_t & n) { dumpPomcp(pl.getGraph(), p, l, n); },
-            [&](size_t a, size_t k) { auto & g = pl.getGraph(); return a < g.children.size() && g.children[a].children.count(k) > 0; }, true);
+            [&](size_t a, size_t k) { auto & g = pl.getGraph(); return a < g.children.size() && g.children[a].children.count(k) > 0; }, true, nullptr, firstAdv);
     } else if (kind == 3) {
-        unsigned kk = 1 + (unsigned)rng.below(12);
-        GMFixed m; m.c = &c; AIToolbox::POMDP::rPOMCP<GMFixed, false> pl(m, 1 + rng.below(6), 1, expl, kk);
+        unsigned kk = idx == 7 ? 1000u : 1 + (unsigned)rng.below(12);
+        size_t bsP = 1 + rng.below(6);
+        GMFixed m; m.c = &c; AIToolbox::POMDP::rPOMCP<GMFixed, false> pl(m, bsP, 1, expl, kk);
+        RHooks rh; rh.beliefParam = bsP;
+        rh.childTb = [&](size_t a, size_t k) { std::vector<std::pair<size_t, size_t>> v;
+            for (auto & kv : Peek<false>::tb(pl.getGraph().children.at(a).children.at(k))) v.emplace_back(kv.first, kv.second.N); return v; };
+        rh.head = [&](Line & l) { dumpHead<false>(pl.getGraph(), l, 6); };
         episode(c, 3, rng, plan, expl, kk, pl,
             [&](const std::vector<size_t> & s, unsigned h) { return pl.sampleAction(mkBelief(c, s), h); },
             [&](size_t a, size_t k, unsigned h) { return pl.sampleAction(a, k, h); },
             [&](Line & l, Path & p, size_t & n) { dumpR<false>(pl.getGraph(), p, l, n); },
-            [&](size_t a, size_t k) { auto & g = pl.getGraph(); return a < g.children.size() && g.children[a].children.count(k) > 0; }, true);
+            [&](size_t a, size_t k) { auto & g = pl.getGraph(); return a < g.children.size() && g.children[a].children.count(k) > 0; }, true, &rh, firstAdv);
     } else {
         unsigned kk = 1 + (unsigned)rng.below(12);
-        GMFixed m; m.c = &c; AIToolbox::POMDP::rPOMCP<GMFixed, true> pl(m, 1 + rng.below(6), 1, expl, kk);
+        size_t bsP = 1 + rng.below(6);
+        GMFixed m; m.c = &c; AIToolbox::POMDP::rPOMCP<GMFixed, true> pl(m, bsP, 1, expl, kk);
+        RHooks rh; rh.beliefParam = bsP;
+        rh.childTb = [&](size_t a, size_t k) { std::vector<std::pair<size_t, size_t>> v;
+            for (auto & kv : Peek<true>::tb(pl.getGraph().children.at(a).children.at(k))) v.emplace_back(kv.first, kv.second.N); return v; };
+        rh.head = [&](Line & l) { dumpHead<true>(pl.getGraph(), l, 6); };
         episode(c, 3, rng, plan, expl, kk, pl,
             [&](const std::vector<size_t> & s, unsigned h) { return pl.sampleAction(mkBelief(c, s), h); },
             [&](size_t a, size_t k, unsigned h) { return pl.sampleAction(a, k, h); },
             [&](Line & l, Path & p, size_t & n) { dumpR<true>(pl.getGraph(), p, l, n); },
-            [&](size_t a, size_t k) { auto & g = pl.getGraph(); return a < g.children.size() && g.children[a].children.count(k) > 0; }, true);
+            [&](size_t a, size_t k) { auto & g = pl.getGraph(); return a < g.children.size() && g.children[a].children.count(k) > 0; }, true, &rh, firstAdv);
     }
 }
 
